@@ -348,6 +348,10 @@ def extra_rules(ctx):
             ctx.ob("R3.pruned-cell-not-extended", LG, q, f"{v} += substitution score only if {v} != 0", ok,
                    f"the diagonal predecessor `{v}` is 0 when that cell was pruned: the substitution score may only be added to a "
                    "reached cell (guard `!= 0`), otherwise alignments start away from the seed", (adds[0].lineno if adds else f.lineno))
+    # ---- every heuristic aligner checks both alphabets against the matrix before it indexes it
+    from ..lints import alphabets_fit_matrix
+    for rel_, q_ in ((BD, "align_banded"), (LG, "align_local_gapped"), (LU, "align_local_ungapped")):
+        alphabets_fit_matrix(ctx, rel_, q_, "R2.alphabets-checked")
     # ---- ungapped seed extension: the C variant reports the score through a pointer
     out_params_written(ctx, LU, "R5.score-out-parameter", 1)
 
